@@ -212,7 +212,12 @@ def RIGHT(
     https://support.office.com/en-us/article/
         right-rightb-functions-240267ee-9afa-4639-a02b-f19e1786cf2f
     """
-    return str(text)[-int(num_chars):]
+    text = str(text)
+    num_chars = int(num_chars)
+    if num_chars < 0:
+        raise xlerrors.ValueExcelError(f'{num_chars} is < 0')
+    # Not `text[-num_chars:]`: that is the whole text for 0 characters.
+    return text[max(len(text) - num_chars, 0):]
 
 
 @xl.register()
